@@ -960,6 +960,8 @@ def _cases(ctx):
     cases.extend(boundary_stubs())
     cases.extend(boundary_histories())
     rng = ctx.rng
+    for _ in range(ctx.n(20, 500)):
+        cases.append(gen_history(rng))
     for _ in range(ctx.n(45, 1000)):
         base = gen_circuit(rng)
         for ua in (False, True):
@@ -977,8 +979,6 @@ def _cases(ctx):
     for _ in range(ctx.n(8, 150)):
         base = gen_circuit(rng, small=True, allow_stray=False, degenerate=True)
         cases.append({"kind": "stub", "ua": False, **base, "stub": gen_stub(rng, base)})
-    for _ in range(ctx.n(20, 500)):
-        cases.append(gen_history(rng))
     return cases
 
 
@@ -1052,17 +1052,21 @@ def evaluate_history(case):
             _, o, qubits, bits, ops_ = ev
             c = None
             if freed:
-                # try to get an object with the identity of a deleted circuit
+                # try to get an object with the identity of a deleted circuit (full gc only if needed)
                 ID_REUSE["attempts"] += 1
-                keep = []
-                for _ in range(64):
-                    cand = Circuit()
-                    if id(cand) in freed:
-                        c = cand
-                        ID_REUSE["hits"] += 1
+                for attempt in range(2):
+                    keep = []
+                    for _ in range(32):
+                        cand = Circuit()
+                        if id(cand) in freed:
+                            c = cand
+                            ID_REUSE["hits"] += 1
+                            break
+                        keep.append(cand)
+                    del keep
+                    if c is not None:
                         break
-                    keep.append(cand)
-                del keep
+                    gc.collect()
             descs[o] = {"qubits": list(qubits), "bits": list(bits), "ops": list(ops_)}
             objs[o] = build_circuit(descs[o], c)
             defs[o] = []
@@ -1082,7 +1086,7 @@ def evaluate_history(case):
             ENGINE.reset()
             freed.append(id(objs[o]))
             del objs[o], descs[o]
-            gc.collect()
+            gc.collect(0)
         elif ev[0] in ("load", "stub"):
             o, name = ev[1], ev[2]
             c, d = objs[o], descs[o]
@@ -1108,6 +1112,10 @@ def evaluate_history(case):
             raise AssertionError(ev)
         if ev[0] not in ("load", "stub"):
             model.append("other")
+    for ids in defs.values():  # do not let the session's definitions pile up in the global store
+        for did in ids:
+            DEF_STORE.raw_defs.pop(did, None)
+            DEF_STORE.frames.pop(did, None)
     bad = [f"load #{k}: {v}" for k, v in enumerate(verdicts) if v not in ("ok", "n/a")]
     return {
         "real": "(results " + " ".join(real) + ")" if real else "(results)",
